@@ -538,7 +538,7 @@ theorem hexSized_bits {sz ds : List Nat} {v : BMNumber}
 
 /-! ### ImportUint / ImportBytes / ExportUint64 -/
 
-theorem valOf_importUint {w v : Nat} (optBits : Nat) (hv : v < 2 ^ w) (hw : w % 8 = 0) :
+theorem valOf_importUint {w v : Nat} (optBits : Int) (hv : v < 2 ^ w) (hw : w % 8 = 0) :
     valOf (importUint w v optBits).bytes = v := by
   show valOf (toBytesLE (w / 8) v) = v
   rw [valOf_toBytesLE]
@@ -550,7 +550,7 @@ theorem valOf_importUint {w v : Nat} (optBits : Nat) (hv : v < 2 ^ w) (hw : w % 
       _ = 2 ^ w := by rw [← this]
   rw [e]; exact hv
 
-theorem exportUint64_importUint {w v : Nat} (optBits : Nat) (hv : v < 2 ^ w) (hw : w % 8 = 0)
+theorem exportUint64_importUint {w v : Nat} (optBits : Int) (hv : v < 2 ^ w) (hw : w % 8 = 0)
     (h64 : w ≤ 64) : exportUint64 (importUint w v optBits) = some v := by
   have hl : (importUint w v optBits).bytes.length = w / 8 := toBytesLE_length _ _
   unfold exportUint64
@@ -559,7 +559,7 @@ theorem exportUint64_importUint {w v : Nat} (optBits : Nat) (hv : v < 2 ^ w) (hw
 theorem importUint64_wf {v : Nat} (_hv : v < 2 ^ 64) : WFU64 (importUint 64 v 0) :=
   ⟨rfl, bytesOK_toBytesLE _ _, toBytesLE_length _ _, rfl⟩
 
-theorem importUint_reimport {w v : Nat} (optBits : Nat) (hv : v < 2 ^ w) (hw : w % 8 = 0) (h64 : w ≤ 64) :
+theorem importUint_reimport {w v : Nat} (optBits : Int) (hv : v < 2 ^ w) (hw : w % 8 = 0) (h64 : w ≤ 64) :
     (exportString (importUint w v optBits)).bind importString = some ⟨toBytesLE 8 v, 64, .unsigned⟩ := by
   have h := unsigned_reimport_is_64 (importUint w v optBits) rfl (bytesOK_toBytesLE _ _)
     (by show (toBytesLE (w / 8) v).length ≤ 8; rw [toBytesLE_length]; omega)
@@ -662,5 +662,38 @@ theorem import_readd_unsigned (n : Nat) :
     · rename_i heq; simp at heq; exact absurd heq.1 h60
     · rw [spanP_all hall]
   simp only [importString, hu, hc]
+
+/-- the width field after `ImportUint`: the override only when positive, else the native width
+    (in particular for the 'any size' sentinel −1 the simulator passes for hex / bin / unsigned) -/
+theorem importUint_bits_sentinel (w v : Nat) (optBits : Int) (h : optBits ≤ 0) :
+    (importUint w v optBits).bits = w := by
+  show (if 0 < optBits then optBits.toNat else w) = w
+  rw [if_neg (by omega)]
+
+theorem importUint_bits_override (w v : Nat) (optBits : Int) (h : 0 < optBits) :
+    (importUint w v optBits).bits = optBits.toNat := by
+  show (if 0 < optBits then optBits.toNat else w) = optBits.toNat
+  rw [if_pos h]
+
+/-- the simulator's show path for a bin register: `ImportUint(v, -1)`, `CastType(bin)` is a
+    well-formed bin value of the register's width, so `roundtrip_bin` applies to it -/
+theorem show_bin_wf {w v : Nat} (hv : v < 2 ^ w) (hw : w % 8 = 0) (hpos : 8 ≤ w) (h64 : w ≤ 64) :
+    WFBin (castType (importUint w v (-1)) .bin) := by
+  refine ⟨rfl, bytesOK_toBytesLE _ _, ?_, ?_, ?_, ?_⟩
+  · show (toBytesLE (w / 8) v).length = (w - 1) / 8 + 1
+    rw [toBytesLE_length]; omega
+  · show 1 ≤ w; omega
+  · show w < two63; unfold two63; omega
+  · show valOf (toBytesLE (w / 8) v) < 2 ^ w
+    have e : valOf (toBytesLE (w / 8) v) = v := valOf_importUint (-1) hv hw
+    rw [e]; exact hv
+
+theorem show_hex_wf {w v : Nat} (hv : v < 2 ^ w) (hw : w % 8 = 0) (hpos : 8 ≤ w) (h64 : w ≤ 64) :
+    WFHex (castType (importUint w v (-1)) .hex) := by
+  refine ⟨rfl, bytesOK_toBytesLE _ _, hw, hpos, ?_, ?_⟩
+  · show w < two63; unfold two63; omega
+  · show valOf (toBytesLE (w / 8) v) < 2 ^ w
+    have e : valOf (toBytesLE (w / 8) v) = v := valOf_importUint (-1) hv hw
+    rw [e]; exact hv
 
 end BMV.Numbers
